@@ -107,6 +107,11 @@ class SV:
         return type(self).__name__
 
 
+# SV classes that stand for Python values rather than for objects with identity
+VALUE_LIKE = {"Opaque", "SymSlice", "SParam", "SDtStr", "SNd", "SShape", "SBoolArr", "SNumStr", "SRat",
+              "SExpr", "SCoeff", "OptRow", "RationalOfStr"}
+
+
 class SObj(SV):
     """heap object of a class defined in the package under verification"""
     _ids = 0
@@ -1504,6 +1509,11 @@ class Interp:
                 return a == b
             return a is b
         if isinstance(a, SV) or isinstance(b, SV):
+            # objects compare by identity; symbolic *values* (numbers, strings, tuples, arrays,
+            # opaque parameters in SV clothing) have no decided equality here: undecided, never False
+            for x in (a, b):
+                if isinstance(x, SV) and type(x).__name__ in VALUE_LIKE:
+                    raise Unsupported("equality of %r and %r" % (a, b))
             return False
         return None
 
